@@ -1,0 +1,24 @@
+//go:build verif
+
+// Machine-checked contracts for package svcb (comment-only; read by /verif's govc).
+
+package svcb
+
+//@ func param.fromText
+//@ trusted
+//@ modifies p
+//@ ensures err == nil ==> p.keynum <= 6
+
+// FromText (C18): an accepted list has pairwise distinct keys, the index map used for the mandatory check
+// points at the right parameters, and every key named by 'mandatory' is present. (Sorting by key is the
+// assumed contract of sort.SliceStable; with distinct keys the order is strictly increasing.)
+//@ func ParamList.FromText
+//@ flag skip frame
+//@ requires l != nil && len(*l) == 0
+//@ before SliceStable#0 assert[unique] forall(a, 0, len(*l), forall(b, 0, len(*l), a != b ==> (*l)[a].keynum != (*l)[b].keynum))
+//@ before SliceStable#0 assert[index] forall(k, 0, 65536, haskey(seen, k) ==> 0 <= seen[k] && seen[k] < len(*l) && (*l)[seen[k]].keynum == k)
+//@ before SliceStable#0 assert[mandatory] haskey(seen, 0) ==> forall(b, 0, len((*l)[seen[0]].value) / 2, haskey(seen, (*l)[seen[0]].value[2*b] * 256 + (*l)[seen[0]].value[2*b+1]))
+//@ loop 0 invariant[len] 0 <= idx && idx <= len(text) && len(*l) == idx
+//@ loop 0 invariant[fwd] forall(j, 0, idx, haskey(seen, (*l)[j].keynum) && seen[(*l)[j].keynum] == j)
+//@ loop 0 invariant[bwd] forall(k, 0, 65536, haskey(seen, k) ==> 0 <= seen[k] && seen[k] < idx && (*l)[seen[k]].keynum == k)
+//@ loop 1 invariant[m] 0 <= bindex && bindex % 2 == 0 && mandatorylist == (*l)[seen[0]].value && haskey(seen, 0) && forall(b, 0, bindex / 2, haskey(seen, mandatorylist[2*b] * 256 + mandatorylist[2*b+1]))
